@@ -45,9 +45,9 @@ const prop = "C18"
 
 // listed / excludable defect classes (root causes)
 const (
-	classMustExpand  = "mustexpand-nil"           // TemplatedRegexp.MustExpand returns nil when expansion against rule data fails
-	classLinkRewrite = "link-rewrite-nil-request" // rule/link: http.NewRequest error ignored after uri rewrite
-	classFailoverURI = "failover-uri-unparsed"    // promapi doRequest: url.Parse error ignored for (unvalidated) failover / discovery URIs
+	classMustExpand  = "mustexpand-nil"            // TemplatedRegexp.MustExpand returns nil when expansion against rule data fails
+	classLinkRewrite = "link-rewrite-nil-request"  // rule/link: http.NewRequest error ignored after uri rewrite
+	classFailoverURI = "failover-uri-unparsed"     // promapi doRequest: url.Parse error ignored for (unvalidated) failover / discovery URIs
 	classLabelNoMap  = "label-recording-no-labels" // rule/label on a recording rule without labels inside a group with labels (fixed in 86fbdcd)
 	classRangeMax    = "range-query-empty-max"     // range_query { max = "" } passes validation; RangeQueryCheck.String() then dereferences a nil server
 )
@@ -74,6 +74,8 @@ type Case struct {
 var stateByName = map[string]discovery.ChangeType{
 	"noop": discovery.Noop, "added": discovery.Added, "modified": discovery.Modified, "moved": discovery.Moved, "removed": discovery.Removed,
 }
+
+var docStateName = map[string]string{"noop": "unmodified", "added": "added", "modified": "modified", "moved": "renamed", "removed": "removed"}
 
 // fixed directory tree for discovery{filepath{}} blocks
 const discDir = "/tmp/verif-c18-disc"
@@ -395,8 +397,20 @@ func excluded(class string, known map[string]string) bool {
 var fileNames = []string{"rules.yml", "rules/a.yml", "alerts/x.yaml", "a(b.yml", "é.yml", "rules/x].yml", "r+?.yaml", "{{x}}.yml"}
 
 func genCase(t *rapid.T, rec *vstat.Recorder, known map[string]string, forceBin bool) (Case, *pintcfg.Config) {
+	// the rule file, command and state come first: the configuration generator derives "focused"
+	// match / ignore sub-blocks from the rules they will be applied to
+	doc := pintcfg.GenHostileDoc(t)
+	fileName := rapid.SampledFrom(fileNames).Draw(t, "filename")
+	command := rapid.SampledFrom([]string{"lint", "lint", "ci", "watch"}).Draw(t, "command")
+	state := rapid.SampledFrom([]string{"noop", "noop", "added", "modified", "moved", "removed"}).Draw(t, "state")
+	// perturbation mode: none | exactly one value anywhere | per-value rate
+	mode := rapid.SampledFrom([]int{0, 0, -1, -1, 2, 5, 15}).Draw(t, "invalidPct")
 	o := pintcfg.Opts{
-		InvalidPct:       rapid.SampledFrom([]int{0, 0, 0, 2, 5, 15}).Draw(t, "invalidPct"),
+		InvalidPct:       max(mode, 0),
+		SingleInvalid:    mode == -1,
+		Targets:          pintcfg.Targets(fileName, doc),
+		Command:          command,
+		State:            docStateName[state],
 		StructPct:        4,
 		Prometheus:       true,
 		Discovery:        true,
@@ -407,7 +421,6 @@ func genCase(t *rapid.T, rec *vstat.Recorder, known map[string]string, forceBin 
 		NoEmptyRangeMax:  excluded(classRangeMax, known),
 	}
 	cfg := pintcfg.Gen(t, o)
-	doc := pintcfg.GenHostileDoc(t)
 	if excluded(classLabelNoMap, known) {
 		// exclusion switch: no group-level labels on a group that has a recording rule without labels of its own
 		for gi := range doc.Groups {
@@ -421,9 +434,9 @@ func genCase(t *rapid.T, rec *vstat.Recorder, known map[string]string, forceBin 
 		}
 	}
 	c := Case{HCL: cfg.HCL}
-	c.Files = []FileCase{{Name: rapid.SampledFrom(fileNames).Draw(t, "filename"), Text: pintcfg.RenderDoc(doc)}}
-	c.Command = rapid.SampledFrom([]string{"lint", "lint", "ci", "watch"}).Draw(t, "command")
-	c.State = rapid.SampledFrom([]string{"noop", "noop", "added", "modified", "moved", "removed"}).Draw(t, "state")
+	c.Files = []FileCase{{Name: fileName, Text: pintcfg.RenderDoc(doc)}}
+	c.Command = command
+	c.State = state
 	workers := cfg.HasProm || cfg.HasDiscovery
 	c.Online = !workers
 	c.Bin = workers || forceBin
@@ -487,6 +500,19 @@ func drive(t *testing.T, forceBin bool) {
 		hasPattern := cfg.HasTemplated || cfg.HasRegexOpt
 		nontrivial := out.accepted && hasPattern && len(out.reached) > 0
 		rec.Case(class, nontrivial, c.HCL+"\x00"+c.Files[0].Name+"\x00"+c.Files[0].Text+"\x00"+c.Command+c.State, func() any { return c })
+		for _, f := range cfg.Focused {
+			parts := strings.Split(f, ":")
+			rec.Count("focused_subblock_perturbed:"+parts[2], 1)
+			if out.accepted && parts[2] != "-" {
+				rec.Count("accepted_although_focused_filter_invalid:"+parts[2], 1)
+			}
+		}
+		if cfg.SinglePerturbed {
+			rec.Count("single_perturbation_cases", 1)
+			if out.accepted {
+				rec.Count("single_perturbation_accepted", 1)
+			}
+		}
 		if out.accepted {
 			rec.Count("accepted", 1)
 			rec.Count("checks_run", int64(out.nchecks))
